@@ -34,6 +34,12 @@ type c11Scenario struct {
 	// Timeouts: the server is configured WithReadTimeout / WithWriteTimeout of
 	// one hour (deadlines far in the future must not keep Stop from returning)
 	Timeouts bool `json:"timeouts,omitempty"`
+	// Late: this many further clients connect (to every server of the scenario) WHILE Stop is being called
+	// and then stay silent: connections that are being accepted at the very moment the server stops
+	Late int `json:"late,omitempty"`
+	// Rounds > 1: the scenario is repeated that many times on fresh servers inside one worker scenario, without
+	// the settling pause (a storm of start / connect / stop cycles)
+	Rounds int `json:"rounds,omitempty"`
 }
 
 func c11NeedsTLS(s string) bool { return strings.HasPrefix(s, "tls-") }
@@ -45,6 +51,25 @@ func c11Run(index int, raw json.RawMessage) lab.WorkerResult {
 	if err := json.Unmarshal(raw, &s); err != nil {
 		return lab.WorkerResult{Skipped: "bad scenario"}
 	}
+	if s.Rounds <= 1 {
+		return c11RunOnce(s, 30*time.Millisecond)
+	}
+	// a storm: the same scenario many times in a row on fresh servers, Stop called as soon as the
+	// connections exist (what matters is the moment of Stop relative to the accept loop)
+	var last lab.WorkerResult
+	for i := 0; i < s.Rounds; i++ {
+		last = c11RunOnce(s, time.Duration(i%4)*300*time.Microsecond)
+		if !last.OK || last.Skipped != "" {
+			if last.Msg != "" {
+				last.Msg = fmt.Sprintf("round %d of %d: %s", i+1, s.Rounds, last.Msg)
+			}
+			return last
+		}
+	}
+	return last
+}
+
+func c11RunOnce(s c11Scenario, settle time.Duration) lab.WorkerResult {
 	main, _, err := lab.SharedPKI()
 	if err != nil {
 		return lab.WorkerResult{Skipped: err.Error()}
@@ -90,8 +115,12 @@ func c11Run(index int, raw json.RawMessage) lab.WorkerResult {
 	var conns []net.Conn
 	var stopPipelining int32
 	var wg sync.WaitGroup
+	var lateDone func()
 	closeAll := func() {
 		atomic.StoreInt32(&stopPipelining, 1)
+		if lateDone != nil {
+			lateDone()
+		}
 		for _, c := range conns {
 			c.Close()
 		}
@@ -194,7 +223,7 @@ func c11Run(index int, raw json.RawMessage) lab.WorkerResult {
 		}
 	}
 	// let the states settle: handlers of not-reading clients fill the socket buffers
-	time.Sleep(30 * time.Millisecond)
+	time.Sleep(settle)
 	type stopRes struct {
 		err error
 		d   time.Duration
@@ -210,6 +239,35 @@ func c11Run(index int, raw json.RawMessage) lab.WorkerResult {
 	}
 	var chans []chan stopRes
 	var servers []*lab.Server
+	var lateMu sync.Mutex
+	var lateWg sync.WaitGroup
+	lateAccepted := 0
+	if s.Late > 0 {
+		// clients that arrive while Stop is running: they connect as fast as they can from just before the
+		// Stop call until the listener is gone, say nothing and never close
+		for _, srv := range []*lab.Server{plain, tlsSrv} {
+			if srv == nil {
+				continue
+			}
+			for g := 0; g < 2; g++ {
+				lateWg.Add(1)
+				go func(addr string) {
+					defer lateWg.Done()
+					for k := 0; k < s.Late; k++ {
+						cn, err := net.DialTimeout("tcp", addr, time.Second)
+						if err != nil {
+							return
+						}
+						lateMu.Lock()
+						conns = append(conns, cn)
+						lateAccepted++
+						lateMu.Unlock()
+					}
+				}(srv.Addr)
+			}
+		}
+		time.Sleep(time.Duration(s.Cut%5) * 100 * time.Microsecond)
+	}
 	for _, srv := range []*lab.Server{plain, tlsSrv} {
 		if srv == nil {
 			continue
@@ -220,6 +278,7 @@ func c11Run(index int, raw json.RawMessage) lab.WorkerResult {
 			chans = append(chans, stopOne(srv))
 		}
 	}
+	lateDone = func() { lateWg.Wait() }
 	deadline := time.After(c11Bound)
 	returned := 0
 	var stopErr error
@@ -241,6 +300,12 @@ func c11Run(index int, raw json.RawMessage) lab.WorkerResult {
 	states := append([]string{}, s.States...)
 	sort.Strings(states)
 	desc := fmt.Sprintf("connections at Stop time: %v, concurrent second Stop: %v, one-hour read/write timeouts configured: %v", states, s.SecondStop, s.Timeouts)
+	if s.Late > 0 {
+		lateWg.Wait()
+		lateMu.Lock()
+		desc += fmt.Sprintf(", %d silent clients connected while Stop was being called", lateAccepted)
+		lateMu.Unlock()
+	}
 	if timedOut {
 		stable, dump := lab.StableCensus(500 * time.Millisecond)
 		uniq := map[string]bool{}
@@ -349,7 +414,7 @@ func c11Exec(c c11Batch, st *lab.Stats) *lab.Fail {
 			st.Inconclusive(fmt.Sprintf("scenario %+v skipped: %s", s, r.Skipped))
 			continue
 		}
-		cls := []string{fmt.Sprintf("conns<=%d", bucket(len(s.States))), fmt.Sprintf("second-stop=%v", s.SecondStop), fmt.Sprintf("timeouts=%v", s.Timeouts)}
+		cls := []string{fmt.Sprintf("conns<=%d", bucket(len(s.States))), fmt.Sprintf("second-stop=%v", s.SecondStop), fmt.Sprintf("timeouts=%v", s.Timeouts), fmt.Sprintf("late=%d", s.Late), fmt.Sprintf("storm=%v", s.Rounds > 1)}
 		for _, x := range s.States {
 			cls = append(cls, "state="+x)
 		}
@@ -378,7 +443,7 @@ func c11Exec(c c11Batch, st *lab.Stats) *lab.Fail {
 func TestC11Enum(t *testing.T) {
 	lab.SkipIfReplayOther(t, "enum")
 	st := lab.GetStats("C11", "enum")
-	st.SetRule("complete enumeration: no connection, every single connection state of {idle, idle after served requests, first k bytes of a frame sent, TCP connected to a TLS listener without / with a partial ClientHello, idle inside a TLS session, pipelining requests as fast as it can, requesting a 13 MB answer and never reading, the same followed by an Unbind, the same together with a StartTLS request, StartTLS answered but handshake never started} and every unordered pair of states, each with and without a concurrent second Stop, single states also with one-hour read/write timeouts configured on the server; clients never close by themselves; executed in worker child processes; oracle = Stop returns and Run returns nil within 5 s (a correct server needs milliseconds), a miss counts only with two identical goroutine censuses 0.5 s apart; non-trivial = >= 1 connection open at Stop; distinct by scenario")
+	st.SetRule("complete enumeration: no connection, every single connection state of {idle, idle after served requests, first k bytes of a frame sent, TCP connected to a TLS listener without / with a partial ClientHello, idle inside a TLS session, pipelining requests as fast as it can, requesting a 13 MB answer and never reading, the same followed by an Unbind, the same together with a StartTLS request, StartTLS answered but handshake never started} and every unordered pair of states, each with and without a concurrent second Stop, single states also with one-hour read/write timeouts configured on the server; plus 4 / 32 silent clients per dialer that connect WHILE Stop is being called (plain and TLS listeners, with and without timeouts), and storms of 150 start / connect-flood / Stop cycles per scenario with no settling pause (Stop racing the accept loop); clients never close by themselves; executed in worker child processes; oracle = Stop returns and Run returns nil within 5 s (a correct server needs milliseconds), a miss counts only with two identical goroutine censuses 0.5 s apart; non-trivial = >= 1 connection open at Stop; distinct by scenario")
 	defer lab.FlushAll()
 	if lab.ReplayInto(t, st, "enum", c11Exec) {
 		return
@@ -390,6 +455,25 @@ func TestC11Enum(t *testing.T) {
 		for _, b := range c11States[i:] {
 			all = append(all, c11Scenario{States: []string{a, b}, Cut: 11})
 		}
+	}
+	// clients arriving while Stop runs, against a plain and a TLS server, with and without configured timeouts
+	for _, base := range [][]string{{"idle"}, {"tls-no-hello"}, {"idle", "tls-idle"}} {
+		for _, late := range []int{4, 32} {
+			for _, to := range []bool{false, true} {
+				for rep := 0; rep < 3; rep++ {
+					all = append(all, c11Scenario{States: base, Cut: 5 + rep, Late: late, Timeouts: to, SecondStop: rep == 2})
+				}
+			}
+		}
+	}
+	// storms of start / connect-flood / stop cycles: Stop racing the accept loop
+	storms := 8
+	if lab.Thorough() {
+		storms = 64
+	}
+	for k := 0; k < storms; k++ {
+		base := [][]string{nil, {"idle"}, {"tls-no-hello"}, {"idle", "tls-idle"}}[k%4]
+		all = append(all, c11Scenario{States: base, Cut: 5 + k, Late: []int{8, 32, 64}[k%3], Timeouts: k%2 == 1, SecondStop: k%4 < 2, Rounds: 150})
 	}
 	shard, nsh := lab.Shard()
 	var mine []c11Scenario
@@ -407,7 +491,7 @@ func TestC11Enum(t *testing.T) {
 func TestC11Random(t *testing.T) {
 	lab.Prop[c11Batch]{
 		ID: "C11", Part: "random",
-		Rule: "rapid: batches of 3..6 scenarios, each a multiset of 0..16 connections in the states above with generated cut offsets and optional concurrent second Stop; same oracle",
+		Rule: "rapid: batches of 3..6 scenarios, each a multiset of 0..16 connections in the states above with generated cut offsets, optional concurrent second Stop, optional one-hour timeouts and optionally 1..64 silent clients per dialer arriving while Stop is being called; same oracle",
 		Gen: func(t *rapid.T) c11Batch {
 			var b c11Batch
 			n := rapid.IntRange(3, 6).Draw(t, "n")
@@ -415,6 +499,9 @@ func TestC11Random(t *testing.T) {
 				s := c11Scenario{SecondStop: rapid.Bool().Draw(t, "second"), Cut: rapid.IntRange(1, 400).Draw(t, "cut"), Timeouts: rapid.IntRange(0, 2).Draw(t, "timeouts") == 0}
 				k := rapid.IntRange(0, 16).Draw(t, "nconns")
 				s.States = rapid.SliceOfN(rapid.SampledFrom(c11States), k, k).Draw(t, "states")
+				if rapid.IntRange(0, 2).Draw(t, "late") == 0 {
+					s.Late = rapid.SampledFrom([]int{1, 4, 16, 64}).Draw(t, "nlate")
+				}
 				b.Scenarios = append(b.Scenarios, s)
 			}
 			return b
